@@ -79,11 +79,8 @@ def main():
 
 
 PROPS_PENDING = {
-    "C12": "claim planned (DESIGN.md U10) but its unit is not built yet",
     "C13": "claim planned (DESIGN.md U7) but its unit is not built yet",
     "C16": "claim planned (DESIGN.md U9) but its unit is not built yet",
-    "C17": "claim planned (DESIGN.md U3/U4) but its unit is not built yet",
-    "C18": "claim planned (DESIGN.md U2/U4) but its unit is not built yet",
     "C21": "claim planned (DESIGN.md U8) but its unit is not built yet",
     "C28": "claim planned (DESIGN.md U7) but its unit is not built yet",
     "C29": "claim planned (DESIGN.md U11) but its unit is not built yet",
